@@ -513,11 +513,16 @@ pub fn matches(got: NV, want: NRef, q: Q) -> bool {
             _ => false,
         }
     } else {
-        // numeric value only; an Integer result stands for its double value, -0.0 == 0.0
+        // numeric value only; an Integer result stands for exactly that integer, -0.0 == 0.0
         let g = got.f();
         let w = want.v.f();
         match q {
-            Q::Exact => g == w || (g.is_nan() && w.is_nan()),
+            Q::Exact => match (got, want.v) {
+                // beyond 2^53 `n as f64` would round: compare the integers themselves
+                (NV::Int(n), NV::Float(x)) => x.is_finite() && x.fract() == 0.0 && x.abs() < 1e30 && (x as i128) == n as i128,
+                (NV::Int(n), NV::Int(m)) => n == m,
+                _ => g == w || (g.is_nan() && w.is_nan()),
+            },
             _ => f64_matches(g, w, q),
         }
     }
